@@ -1,9 +1,10 @@
 SPECIFICATION Spec
 CONSTANTS
   OAuthEscapes = TRUE
+  SpecRouteEscaped = FALSE
   MaxSegs = 4
   MaxPayload = 4
-  SegIds = {"docs", "swagger.json", "api", "ui", "specs", "api.json", "..", "empty"}
+  SegIds = {"docs", "swagger.json", "api", "ui", "specs", "api.json", "..", "empty", "my specs"}
   PayloadBytes = {97, 60, 62, 38, 34, 39, 43, 47, 92, 32}
 INVARIANTS RoutingHolds EscapingHolds
 CHECK_DEADLOCK FALSE
